@@ -278,6 +278,7 @@ impl Ctrl {
                     g.threads.iter().enumerate().map(|(i, t)| format!("{i}:{t:?}")).collect();
                 g.stall = Some(format!("deadlock: no eligible thread [{}]", desc.join(" ")));
                 g.free_run = true;
+            g.record_trace = false;
             }
             g.current = None;
             self.cv.notify_all();
@@ -301,6 +302,7 @@ impl Ctrl {
                 g.slots
             ));
             g.free_run = true;
+            g.record_trace = false;
             g.current = None;
             self.cv.notify_all();
             return;
@@ -422,6 +424,7 @@ impl Ctrl {
             if timeout.timed_out() && Instant::now() > deadline {
                 g.stall = Some(format!("controller wait timed out for thread {tid}"));
                 g.free_run = true;
+            g.record_trace = false;
                 self.cv.notify_all();
             }
         }
